@@ -414,6 +414,31 @@ def exhaustive_pairs():
                 yield [a, ")", b]
 
 
+def chain_docs():
+    """every kind P placed at the end of a valid chain of ancestors from the root (per the
+    reference table of lib/ctxref.py), explicit or implicit, followed by every kind as a child:
+    the table entry (P, child) is exercised at depth, not only directly under the root"""
+    import ctxref
+    k2r = lambda k: "200" if k == "RESP" else k
+    chain = {k: [k] for k in ctxref.ROOT}
+    todo = list(ctxref.ROOT)
+    while todo:
+        q = todo.pop(0)
+        for c in ctxref.TABLE.get(q, []):
+            if c not in chain:
+                chain[c] = chain[q] + [c]
+                todo.append(c)
+    for p, ch in chain.items():
+        if p == "JSIGHT":
+            continue
+        for anc_x in (False, True):
+            for p_x in (False, True):
+                head = [(RENDER[k2r(a)][0], anc_x) for a in ch[:-1]] + [(RENDER[k2r(p)][0], p_x)]
+                for k in KIND_LIST:
+                    for r in RENDER[k]:
+                        yield head + [(r, False)]
+
+
 def single_file_case(cid, data):
     return {"id": cid, "files": {"root.jst": data.hex()}, "dirs": [], "root": "root.jst"}
 
@@ -516,6 +541,8 @@ def gen_structured(rng, with_macros=True):
                 upath = "/u%d/{id}" % i
             else:
                 upath = "/u%d" % i
+            if rng.random() < 0.3:
+                kids.append(Node("Tags @tg"))
             for _ in range(rng.randint(1, 3)):
                 kids.append(gen_method(rng, False, used))
             # methods under one URL must differ
@@ -565,8 +592,9 @@ def abstract_macros(rng, roots):
         i = 0
         while i < len(nodes):
             n = nodes[i]
-            if depth > 0 and parent not in ("TAG", "Method") and rng.random() < 0.25 and n.text.split()[0] not in ("Protocol", "Method", "Params", "Result", "Tags", "OperationId"):
-                ln = rng.randint(1, min(2, len(nodes) - i))
+            at_root = depth == 0 and n.text.split()[0] in ("GET", "POST", "PUT", "PATCH", "DELETE", "URL")
+            if (depth > 0 or at_root) and parent not in ("TAG", "Method") and rng.random() < 0.25 and n.text.split()[0] not in ("Protocol", "Method", "Params", "Result", "Tags", "OperationId"):
+                ln = 1 if at_root else rng.randint(1, min(2, len(nodes) - i))
                 run = nodes[i:i + ln]
                 if all(r.text.split()[0] not in ("Protocol", "Method", "Params", "Result", "Tags", "OperationId", "TAG", "JSIGHT", "MACRO") for r in run):
                     name = "@mc%d" % counter[0]
